@@ -38,14 +38,15 @@ CLAIMED = {
             "REGENERATED from dtw.py (Gen_pywps.v, tools/pyfun.py) fills exactly that matrix, with no subscript out "
             "of range (PyWpsGen.v); C04_c_wps_kernel_as_written: the C kernel dtw_warping_paths_ndim REGENERATED "
             "whole from dd_dtw.c (Gen_cwpsk.v, tools/cfun.py), run without a bound on any buffer, leaves in every "
-            "slot of the compact array the specification cell the layout assigns to it, no access out of range "
-            "(CWpsCanon/Kernel/Tie/Spec/Final.v); dtw.warping_paths is compared with the as-written model and with the extracted "
+            "slot of the compact array the specification cell the layout assigns to it, no access out of range, and "
+            "run for its value returns the DTW value of the specification - corner read or end-of-series scans, sqrt "
+            "pass included (C04_c_wps_kernel_returns_the_dtw_value; CWpsCanon/Kernel/Tie/Value/Spec/Final.v); dtw.warping_paths is compared with the as-written model and with the extracted "
             "regenerated fill on every cell, the C full matrix, "
             "compact+expand and slice expansion cell-wise with the specification model applying the property's "
             "two freedoms",
             "a model of the C fill loops as written (regenerated geometry and recurrence text, CFillSim.v) is proved to "
             "store the specification matrix through the layout, and fill and expand address the same slot (CFill.v, "
-            "CExpand.v); the bounded run (pruning by max_dist), the Euclidean twin, the value scans and the -1 marks of "
+            "CExpand.v); the bounded run (pruning by max_dist), the Euclidean twin and the -1 marks of "
             "the C kernels are regenerated and compared with the compiled kernels cell by cell (site c.wpsk) but not "
             "proved; float rounding is correspondence only; border-cell finding "
             "F23 recorded",
